@@ -82,7 +82,7 @@ pub fn expected_probes(prop: &str) -> &'static [&'static str] {
         "C04" => &["C04.truncated_response", "C14.response_over_16k", "C14.many_compression_pointers"],
         "C06" => &["C06.served_from_cache", "C06.hit_exactly_at_ttl", "C06.query_aimed_at_ttl_boundary", "C06.near_miss_key_in_same_run", "C06.repeated_key_resolved_upstream"],
         "C07" => &["C07.response_from_per_address_socket_of_bind_addresses_interfaces", "C07.several_queries_on_one_client_connection", "C07.upstream_connection_died_inside_the_second_of_two_pipelined_replies", "C07.query_aimed_at_upstream_tcp_idle_timers", "C07.several_responses_seen", "C07.servfail_after_fault", "C07.query_to_secondary_local_address", "C07.response_sent_from_ipv4_only_listener", "in.udp.no_socket"],
-        "C14" => &["C14.response_over_16k", "C14.many_compression_pointers", "C14.name_expanded_through_more_than_10_pointers_in_a_row", "C14.name_expanded_through_more_than_60_pointers_in_a_row", "C14.hostile_reply_accepted_and_relayed", "C14.flowing_message_refused_by_decoder", "C14.flowing_message_survives_encode_decode"],
+        "C14" => &["C14.response_over_16k", "C14.many_compression_pointers", "C14.name_expanded_through_more_than_10_pointers_in_a_row", "C14.name_expanded_through_more_than_60_pointers_in_a_row", "C14.hostile_reply_accepted_and_relayed", "C14.label_of_62_or_63_octets_relayed", "C14.flowing_message_refused_by_decoder", "C14.flowing_message_survives_encode_decode"],
         "C15" => &["C15.forge_nxdomain_route", "C15.forward_route", "C15.no_route", "C15.no_recursion_desired_on_forward_route"],
         "C16" => &[
             "C16.flood_of_100_or_more",
